@@ -30,7 +30,7 @@ Val gen_tree(vf::Src& s, int depth, int archId) {
 	const bool mp = archId == MSGPACK, xml = archId == XML;
 	const uint64_t k = s.draw(depth > 0 ? 10 : 7);
 	switch (k) {
-	case 0: if (xml) return refmp::mkStr(gen_str(s, true)); return refmp::mkBool(s.coin());
+	case 0: if (xml) return refmp::mkStr(gen_str(s, true)); return s.chance(1, 3) ? refmp::mkNil() : refmp::mkBool(s.coin());
 	case 1: { int64_t v = s.integer<int64_t>(); return v >= 0 ? refmp::mkUInt(static_cast<uint64_t>(v)) : refmp::mkInt(v); }
 	case 2: return refmp::mkUInt(s.integer<uint64_t>());
 	case 3: return refmp::mkF64(static_cast<double>(s.integer<int32_t>()) / 256.0);
